@@ -213,9 +213,40 @@ def r7(ctx: RuleCtx) -> None:
                     f'{second} is tried before {first}: its regex matches a prefix of every {first} literal, so such literals would be split', lt.nodes['self.token_specification'])
     fn = mod.func('Lexer.lex')
     strips: T.Dict[str, T.Tuple[int, int]] = {}
+    # single-use locals of a branch (`quote_start = 2 if tid == 'fstring' else 1`) are substituted into the slice bounds: reaching definitions
+    # per branch, in statement order
+    branch_defs: T.Dict[T.Tuple[T.Tuple[int, bool], ...], T.Dict[str, ast.AST]] = {}
+
+    class _Inline(ast.NodeTransformer):
+        def __init__(self, env: T.Dict[str, ast.AST]):
+            self.env = env
+
+        def visit_Name(self, n: ast.Name) -> ast.AST:
+            if isinstance(n.ctx, ast.Load) and n.id in self.env:
+                import copy as _cp
+                return self.visit(_cp.deepcopy(self.env[n.id]))
+            return n
     for st, guards in _guarded(fn.body, []):
+        gkey = tuple((id(g), v) for g, v in guards)
+        env_b: T.Dict[str, ast.AST] = dict(branch_defs.get(gkey, {})) if gkey else {}      # definitions of this very branch only
+        if isinstance(st, ast.Assign) and len(st.targets) == 1 and isinstance(st.targets[0], ast.Name) and not (
+                isinstance(st.value, ast.Subscript) and norm(st.value.value) == st.targets[0].id) \
+                and not any(isinstance(n, ast.Call) for n in ast.walk(st.value)) and st.targets[0].id not in {n.id for n in ast.walk(st.value) if isinstance(n, ast.Name)}:
+            branch_defs.setdefault(gkey, {})[st.targets[0].id] = st.value
+        elif isinstance(st, (ast.Assign, ast.AugAssign, ast.AnnAssign)):
+            for t in ast.walk(st):
+                if isinstance(t, ast.Name) and isinstance(t.ctx, ast.Store):
+                    for d in branch_defs.values():
+                        d.pop(t.id, None)
         if isinstance(st, ast.Assign) and isinstance(st.targets[0], ast.Name) and isinstance(st.value, ast.Subscript) and norm(st.value.value) == st.targets[0].id \
                 and isinstance(st.value.slice, ast.Slice):
+            import copy as _cp2
+            st = _cp2.deepcopy(st)
+            if st.value.slice.lower is not None:
+                st.value.slice.lower = _Inline(env_b).visit(st.value.slice.lower)
+            if st.value.slice.upper is not None:
+                st.value.slice.upper = _Inline(env_b).visit(st.value.slice.upper)
+            ast.fix_missing_locations(st)
             sets = []
             for ge, val in guards:
                 dom = _const_domain(ge, lambda x: fold_expr(repo, mod, x)) if val else None
@@ -397,6 +428,9 @@ def r7(ctx: RuleCtx) -> None:
         good = [('call', 'sorted', None, (held,), ()), ('call', 'sorted', None, (('call', '.keys', held, (), ()),), ()), ('call', 'sorted', None, (('call', 'self.held_object.keys', None, (), ()),), ())]
         ctx.require(bool(rs) and all(_strip_calls(r) in good for r in rs), 'dict.keys() returns sorted(held keys)', dmod, f'DictHolder.{km.name}', f'dict.keys result {[show(r) for r in rs]}',
                     f'dict.keys() returns {[show(r) for r in rs]}; the reference prescribes the sorted key list', km)
+
+    from .c01_args import dict_values_order
+    dict_values_order(ctx)
 
 
 # ---------------------------------------------------------------------------
